@@ -81,6 +81,8 @@ pub struct PartReport {
     pub evaluations: u64,
     pub steps: u64,
     pub nontrivial: HashSet<u64>,
+    /// non-trivial cases counted directly (enumerations whose cases are distinct by construction)
+    pub nontrivial_counted: u64,
     pub classes: BTreeMap<String, u64>,
     pub samples: Vec<String>,
     pub exhaustive: bool,
@@ -145,6 +147,7 @@ pub fn install_panic_hook() {
         };
         let loc = info.location().map(|l| format!("{}:{}", l.file(), l.line())).unwrap_or_default();
         let bt = std::backtrace::Backtrace::force_capture().to_string();
+        if std::env::var("VERIF_DEBUG_BT").is_ok() { eprintln!("{}", bt); }
         let in_avt = panic_in_avt(&bt, &loc);
         LAST_PANIC.with(|p| *p.borrow_mut() = Some((format!("{} at {}", msg, loc), in_avt)));
     }));
@@ -157,7 +160,8 @@ fn panic_in_avt(bt: &str, loc: &str) -> bool {
             return true;
         }
     }
-    // innermost non-std frame decides
+    // innermost non-std frame *below the panic machinery* decides
+    let mut started = false;
     for line in bt.lines() {
         let l = line.trim();
         // frame lines look like "12: avt::buffer::Buffer::insert"
@@ -166,6 +170,12 @@ fn panic_in_avt(bt: &str, loc: &str) -> bool {
             continue;
         }
         let sym = l[pos + 2..].trim_start_matches('<');
+        if !started {
+            if sym.contains("rust_begin_unwind") || sym.starts_with("core::panicking::") {
+                started = true;
+            }
+            continue;
+        }
         if sym.starts_with("avt::") {
             return true;
         }
@@ -270,12 +280,12 @@ pub fn start_watchdog(prop: String, verif_dir: PathBuf) {
     });
 }
 
-fn slot_begin(w: usize, part: &str, case: &Case) {
+pub fn slot_begin(w: usize, part: &str, case: &Case) {
     let mut g = slots()[w % 64].lock().unwrap();
     g.started = Some((Instant::now(), part.to_string(), case.clone()));
 }
 
-fn slot_end(w: usize) {
+pub fn slot_end(w: usize) {
     let mut g = slots()[w % 64].lock().unwrap();
     g.started = None;
 }
@@ -564,7 +574,7 @@ pub fn write_evidence(env: &Env, parts: &[PartReport], meta: &EvidenceMeta, wall
     let evaluations: u64 = parts.iter().map(|p| p.evaluations).sum();
     let mut nontrivial: u64 = 0;
     for p in parts {
-        nontrivial += p.nontrivial.len() as u64;
+        nontrivial += p.nontrivial.len() as u64 + p.nontrivial_counted;
     }
     let mut samples: Vec<serde_json::Value> = vec![];
     for p in parts {
@@ -590,7 +600,7 @@ pub fn write_evidence(env: &Env, parts: &[PartReport], meta: &EvidenceMeta, wall
         .map(|p| {
             json!({
                 "name": p.name, "evaluations": p.evaluations, "judged_steps": p.steps,
-                "distinct_nontrivial": p.nontrivial.len(), "exhaustive": p.exhaustive, "bounds": p.bounds,
+                "distinct_nontrivial": p.nontrivial.len() as u64 + p.nontrivial_counted, "exhaustive": p.exhaustive, "bounds": p.bounds,
                 "invalid_discarded": p.invalid, "excluded_by_construction": p.excluded,
             })
         })
